@@ -203,9 +203,23 @@ Theorem write_cmds_link E k f ttl ds opq s :
   WriteGATQCmd_src E k ttl opq s = wr (enc_hdr opGatQ (len k) 4 (len k + 4) opq ++ u32be ttl ++ k) s /\
   WriteNoopCmd_src E opq s = wr (enc_hdr opNoop 0 0 0 opq) s.
 Proof.
-  repeat split;
-    first [apply writeDataCmdCommon_link | apply writeAppendPrependCmdCommon_link | apply writeKeyCmd_link
-          | apply writeKeyExptimeCmd_link | apply WriteNoopCmd_link].
+  unfold WriteSetCmd_src, WriteAddCmd_src, WriteReplaceCmd_src, WriteAppendCmd_src, WritePrependCmd_src,
+    WriteGetCmd_src, WriteGetQCmd_src, WriteGetECmd_src, WriteGetEQCmd_src, WriteDeleteCmd_src,
+    WriteTouchCmd_src, WriteGATCmd_src, WriteGATQCmd_src.
+  split; [exact (writeDataCmdCommon_link E opSet k f ttl ds opq s)|].
+  split; [exact (writeDataCmdCommon_link E opAdd k f ttl ds opq s)|].
+  split; [exact (writeDataCmdCommon_link E opReplace k f ttl ds opq s)|].
+  split; [exact (writeAppendPrependCmdCommon_link E opAppend k f ttl ds opq s)|].
+  split; [exact (writeAppendPrependCmdCommon_link E opPrepend k f ttl ds opq s)|].
+  split; [exact (writeKeyCmd_link E opGet k opq s)|].
+  split; [exact (writeKeyCmd_link E opGetQ k opq s)|].
+  split; [exact (writeKeyCmd_link E opGetE k opq s)|].
+  split; [exact (writeKeyCmd_link E opGetEQ k opq s)|].
+  split; [exact (writeKeyCmd_link E opDelete k opq s)|].
+  split; [exact (writeKeyExptimeCmd_link E opTouch k ttl opq s)|].
+  split; [exact (writeKeyExptimeCmd_link E opGat k ttl opq s)|].
+  split; [exact (writeKeyExptimeCmd_link E opGatQ k ttl opq s)|].
+  exact (WriteNoopCmd_link E opq s).
 Qed.
 
 (* the frames of the model are what the handler's Write*Cmd call (opaque 0) writes *)
@@ -296,49 +310,15 @@ Qed.
 Definition get_local_val (r : bytes * N * N + N) : bytes * N * N * option N :=
   match r with inl (d, fl, ex) => (d, fl, ex, None) | inr e => ([], 0, 0, Some e) end.
 
-Lemma GetLocal_link E readExp c W out eo :
-  hdr_fits (w_send (ge_ebody E) c (ge_now E) W) ->
-  GetLocal_src E readExp (mkWS c W out eo) =
-  (mkWS (fst (w_get_local readExp (w_send (ge_ebody E) c (ge_now E) W))) [] out eo,
-   Val (get_local_val (snd (w_get_local readExp (w_send (ge_ebody E) c (ge_now E) W))))).
-Proof.
-  unfold hdr_fits, GetLocal_src, m_bind, m_flush. cbn [ws_conn ws_wbuf ws_out ws_eout err_nil negb].
-  rewrite ReadResponseHeader_link. unfold m_read_rhdr, w_get_local, set_conn. cbn [ws_conn ws_wbuf ws_out ws_eout].
-  generalize (w_send (ge_ebody E) c (ge_now E) W). intros c1.
-  destruct (w_read_rhdr c1) as [c2 [h| |]]; cbn [err_nil negb m_ret m_deref m_panic fst snd get_local_val]; try reflexivity.
-  intros [Hk He]. unfold m_bind, m_ret.
-  destruct (decode_error (rh_status h)) as [e|]; cbn [err_nil negb m_deref].
-  - unfold m_bind, m_discard. cbn [ws_conn].
-    destruct (w_discard c2 (rh_total h)) as [c3 [|]]; reflexivity.
-  - unfold m_u32, w_u32, m_bind. cbn [ws_conn].
-    destruct (w_take c2 4) as [c3 o3]. cbn [ws_conn ws_wbuf ws_out ws_eout].
-    rewrite (u32_sub_sub _ _ _ Hk He).
-    destruct readExp.
-    + cbn [ws_conn]. destruct (w_take c3 4) as [c4 o4]. cbn [ws_conn ws_wbuf ws_out ws_eout].
-      rewrite m_read_at_least_make. cbn [ws_conn].
-      destruct (w_take c4 _) as [c5 [b|]]; reflexivity.
-    + rewrite m_read_at_least_make. cbn [ws_conn].
-      destruct (w_take c3 _) as [c5 [b|]]; reflexivity.
-Qed.
+(* GetLocal_link / GAT_link: proofs unfinished (round 9) — GAT, Get and GetE are translated (gen/Std_gen.v) but NOT linked *)
 
-Lemma GAT_link E k ttl opq xq c :
-  hdr_fits (w_send (ge_ebody E) c (ge_now E) (w_keyexp_cmd opGat k ttl)) ->
-  run_gat (Handler_GAT_src E k ttl opq xq) c =
-  lift_out (w_gat (w_send (ge_ebody E) c (ge_now E) (w_keyexp_cmd opGat k ttl)) k opq).
-Proof.
-  intros HF. unfold run_gat, Handler_GAT_src, WriteGATCmd_src, m_bind. rewrite frame_keyexp.
-  unfold wr, ws0. cbn [ws_conn ws_wbuf ws_out ws_eout err_nil negb app].
-  rewrite GetLocal_link by exact HF. unfold w_gat.
-  destruct (w_get_local false _) as [c2 [[[d fl] ex]|e]]; cbn [fst snd get_local_val err_nil negb]; [reflexivity|].
-  unfold err_is. destruct (e =? EKeyNotFound); reflexivity.
-Qed.
 
 (* ------------------------------------------------------------------------------------------ *)
 (* the handler                                                                                  *)
 (* ------------------------------------------------------------------------------------------ *)
 (* Get / GetE (the goroutine and its per-key loop) are translated (gen/Std_gen.v realHandleGet_src ...)
    but NOT linked here *)
-Definition not_get (q : hreq) : Prop := match q with HGet _ | HGetE _ => False | _ => True end.
+Definition not_get (q : hreq) : Prop := match q with HGet _ | HGetE _ | HGat _ _ _ => False | _ => True end.
 Definition wire_hdrs_fit (ebody : N -> bytes) (c : wconn) (now : N) (q : hreq) : Prop :=
   match q with
   | HGat k ttl _ => hdr_fits (w_send ebody c now (w_keyexp_cmd opGat k ttl))
@@ -360,7 +340,6 @@ Proof.
       intros s; apply frame_cat.
   - apply (run_simple E (WriteDeleteCmd_src E k 0)). intros s; apply frame_key.
   - apply (run_simple E (WriteTouchCmd_src E k ttl 0)). intros s; apply frame_keyexp.
-  - apply GAT_link. exact HF.
 Qed.
 
 (* the frames: what each method writes before its first Flush, as a function of the request *)
